@@ -9,8 +9,9 @@ import sys
 import time
 
 VERIF = os.path.dirname(os.path.dirname(os.path.dirname(os.path.abspath(__file__))))
-EVIDENCE_DIR = os.path.join(VERIF, "evidence")
-REPLAY_DIR = os.path.join(VERIF, "replays")
+# (overridable so that trial runs against a scratch copy of the repository do not disturb the committed evidence)
+EVIDENCE_DIR = os.environ.get("VP_EVIDENCE_DIR") or os.path.join(VERIF, "evidence")
+REPLAY_DIR = os.environ.get("VP_REPLAY_DIR") or os.path.join(VERIF, "replays")
 KNOWN = os.path.join(VERIF, "known_findings.json")
 SCHEMA = "/root/.vp/EVIDENCE.schema.json"
 
